@@ -41,6 +41,7 @@ string q(const string& s) {  // printable, quoted
 }
 string showList(const vector<string>& v) { string o = "["; for (size_t i = 0; i < v.size(); ++i) o += (i ? "," : "") + q(v[i]); return o + "]"; }
 template <class M> string showMap(const M& m) { string o = "{"; bool f = true; for (auto& kv : m) { o += (f ? "" : ", ") + q(kv.first) + ":" + q(kv.second); f = false; } return o + "}"; }
+string what1(const std::exception& e) { string w = e.what(); size_t p = w.find_first_of("\n\t"); return p == string::npos ? w : w.substr(0, p); }
 bool bitEq(double a, double b) { return memcmp(&a, &b, sizeof a) == 0; }
 bool isDig(char ch) { return ch >= '0' && ch <= '9'; }
 
@@ -76,7 +77,7 @@ LAW(N1_double_roundtrip, RC, 30000, 1500000, 6, "the 17-digit rendering has an e
   c.nt(s.find('e') != string::npos || nd >= 17);
   CHECK(TextTools::isDecimalNumber(s), "toString(x,17) = " << q(s) << " is not recognised by isDecimalNumber");
   double y = 0;
-  try { y = TextTools::toDouble(s); } catch (bpp::Exception& e) { CHECK(false, "toDouble(" << q(s) << ") raised: " << e.what()); }
+  try { y = TextTools::toDouble(s); } catch (bpp::Exception& e) { CHECK(false, "toDouble(" << q(s) << ") raised: " << what1(e)); }
   CHECK(bitEq(x, y), "toDouble(toString(x,17)) = " << vf::hexd(y) << " differs from x = " << vf::hexd(x) << " (text " << q(s) << ")");
 }
 
@@ -94,10 +95,10 @@ LAW(N2_int_roundtrip, RC, 20000, 1000000, 4, "negative, or more than 6 digits") 
   CHECK(TextTools::isDecimalInteger(s), "toString(i) = " << q(s) << " is not recognised by isDecimalInteger");
   CHECK(TextTools::isDecimalNumber(s), "toString(i) = " << q(s) << " is not recognised by isDecimalNumber");
   int j = 0;
-  try { j = TextTools::toInt(s); } catch (bpp::Exception& e) { CHECK(false, "toInt(" << q(s) << ") raised: " << e.what()); }
+  try { j = TextTools::toInt(s); } catch (bpp::Exception& e) { CHECK(false, "toInt(" << q(s) << ") raised: " << what1(e)); }
   CHECK(i == j, "toInt(toString(" << i << ")) = " << j);
   double d = 0;
-  try { d = TextTools::toDouble(s); } catch (bpp::Exception& e) { CHECK(false, "toDouble(" << q(s) << ") raised: " << e.what()); }
+  try { d = TextTools::toDouble(s); } catch (bpp::Exception& e) { CHECK(false, "toDouble(" << q(s) << ") raised: " << what1(e)); }
   CHECK(d == static_cast<double>(i), "toDouble(toString(" << i << ")) = " << vf::dec(d));
 }
 
@@ -290,7 +291,6 @@ LAW(T1_rejoin, RC, 40000, 2000000, 40, "string with >= 1 delimiter and >= 1 brac
   vector<string> tok = toVec(st.getTokens());
   CHECK(st.numberOfRemainingTokens() == tok.size() && st.hasMoreToken() == !tok.empty(), "numberOfRemainingTokens / hasMoreToken disagree with getTokens() at the start");
   for (auto& t : tok) CHECK(!containsDelim(t, delims, solid), "token " << q(t) << " contains a delimiter; tokens " << showList(tok));
-  if (tok.empty()) c.excludeIfKnown("C17-unparse-no-token");
   const string u0 = st.unparseRemainingTokens();
   // (a) only delimiters are dropped at the ends
   bool found = false;
@@ -464,7 +464,7 @@ LAW(K1_procedure, RC, 30000, 1500000, 120, "procedure with a nested argument") {
   c.nt(hasNested);
   string name2; SMap args2;
   try { KeyvalTools::parseProcedure(desc, name2, args2); }
-  catch (bpp::Exception& e) { CHECK(false, "parseProcedure(" << q(desc) << ") raised: " << e.what()); }
+  catch (bpp::Exception& e) { CHECK(false, "parseProcedure(" << q(desc) << ") raised: " << what1(e)); }
   CHECK(name2 == name, "parsed name " << q(name2) << " differs from " << q(name));
   CHECK(args2 == args, "parsed arguments " << showMap(args2) << " differ from " << showMap(args));
 }
@@ -483,10 +483,10 @@ LAW(K2_changeKeyvals, RC, 30000, 1500000, 200, "a nested argument, >= 1 key repl
   c.nt(hasNested && replaced >= 1 && foreign >= 1);
   string out;
   try { out = KeyvalTools::changeKeyvals(desc, nw); }
-  catch (bpp::Exception& e) { CHECK(false, "changeKeyvals(" << q(desc) << ") raised: " << e.what()); }
+  catch (bpp::Exception& e) { CHECK(false, "changeKeyvals(" << q(desc) << ") raised: " << what1(e)); }
   string name2; SMap args2;
   try { KeyvalTools::parseProcedure(out, name2, args2); }
-  catch (bpp::Exception& e) { CHECK(false, "parseProcedure of the changeKeyvals result " << q(out) << " raised: " << e.what()); }
+  catch (bpp::Exception& e) { CHECK(false, "parseProcedure of the changeKeyvals result " << q(out) << " raised: " << what1(e)); }
   SMap want = args; for (auto& kv : nw) if (want.count(kv.first)) want[kv.first] = kv.second;
   CHECK(name2 == name, "changeKeyvals result " << q(out) << " has name " << q(name2));
   CHECK(args2 == want, "changeKeyvals result " << q(out) << " parses to " << showMap(args2) << ", expected " << showMap(want));
@@ -507,7 +507,7 @@ LAW(K3_multipleKeyvals, RC, 30000, 1500000, 120, "nested parsing with a nested a
   c.nt((nested && hasNested) || (spaced && !args.empty()));
   SMap got;
   try { KeyvalTools::multipleKeyvals(desc, got, split, nested); }
-  catch (bpp::Exception& e) { CHECK(false, "multipleKeyvals(" << q(desc) << ") raised: " << e.what()); }
+  catch (bpp::Exception& e) { CHECK(false, "multipleKeyvals(" << q(desc) << ") raised: " << what1(e)); }
   CHECK(got == args, "multipleKeyvals gave " << showMap(got) << ", expected " << showMap(args));
 }
 
@@ -620,7 +620,7 @@ LAW(V1_variables, RC, 30000, 1500000, 120, "a chain of >= 2 references, or an un
   c.nt(maxChain >= 2 || undefinedRef);
   SMap got = am;
   try { AttributesTools::resolveVariables(got); }
-  catch (bpp::Exception& e) { CHECK(false, "resolveVariables raised: " << e.what()); }
+  catch (bpp::Exception& e) { CHECK(false, "resolveVariables raised: " << what1(e)); }
   CHECK(got.size() == am.size(), "resolveVariables changed the set of keys: " << showMap(got));
   for (auto& kv : got) {
     CHECK(want.count(kv.first), "resolveVariables created the key " << q(kv.first));
@@ -667,7 +667,7 @@ LAW(D1_table, RC, 20000, 1000000, 120, "table with row names") {
   istringstream is(text);
   unique_ptr<DataTable> rd;
   try { rd = DataTable::read(is, sep, colNames, -1); }
-  catch (bpp::Exception& e) { CHECK(false, "DataTable::read raised on the written text " << q(text) << ": " << e.what()); }
+  catch (bpp::Exception& e) { CHECK(false, "DataTable::read raised on the written text " << q(text) << ": " << what1(e)); }
   CHECK(rd->getNumberOfRows() == static_cast<size_t>(nRow) && rd->getNumberOfColumns() == static_cast<size_t>(nCol),
         "read back " << rd->getNumberOfRows() << "x" << rd->getNumberOfColumns() << " from " << q(text));
   CHECK(rd->hasColumnNames() == colNames, "hasColumnNames() = " << rd->hasColumnNames() << " after reading " << q(text));
@@ -683,7 +683,7 @@ LAW(D1_table, RC, 20000, 1000000, 120, "table with row names") {
 namespace {
 
 typedef unique_ptr<DiscreteDistributionInterface> DD;
-struct DFlags { bool truncExp = false, simple = false, invariant = false, uniform = false, gammaOffset = false, simpleRanges = false, unsortedRanges = false; int compounds = 0; };
+struct DFlags { int libInvariant = -1; bool truncExp = false, betaSmall = false, simple = false, invariant = false, uniform = false, gammaOffset = false, simpleRanges = false, unsortedRanges = false; int compounds = 0; };
 double dec3(vf::Ctx& c, int loMilli, int hiMilli) { return c.irange(loMilli, hiMilli) / 1000.0; }  // 3-digit decimal
 
 // m probabilities, multiples of 1/1000, each >= 0.001, summing to 1
@@ -702,7 +702,7 @@ DD genLeaf(vf::Ctx& c, int maxN, ostringstream& ds, DFlags& f) {
       ds << "Gamma(n=" << n << ",alpha=" << a << ",beta=" << b << ")"; return DD(new GammaDiscreteDistribution(n, a, b));
     }
     case 1: { double mu = dec3(c, -10000, 10000), sg = dec3(c, 100, 10000); ds << "Gaussian(n=" << n << ",mu=" << mu << ",sigma=" << sg << ")"; return DD(new GaussianDiscreteDistribution(n, mu, sg)); }
-    case 2: { double a = dec3(c, 200, 20000), b = dec3(c, 200, 20000); ds << "Beta(n=" << n << ",alpha=" << a << ",beta=" << b << ")"; return DD(new BetaDiscreteDistribution(n, a, b)); }
+    case 2: { double a = dec3(c, 200, 20000), b = dec3(c, 200, 20000); if (a <= 1 || b <= 1) f.betaSmall = true; ds << "Beta(n=" << n << ",alpha=" << a << ",beta=" << b << ")"; return DD(new BetaDiscreteDistribution(n, a, b)); }
     case 3: { double l = dec3(c, 100, 10000); ds << "Exponential(n=" << n << ",lambda=" << l << ")"; return DD(new ExponentialDiscreteDistribution(n, l)); }
     case 4: { double l = dec3(c, 100, 10000), tp = dec3(c, 500, 20000); f.truncExp = true; ds << "TruncExponential(n=" << n << ",lambda=" << l << ",tp=" << tp << ")"; return DD(new TruncatedExponentialDiscreteDistribution(n, l, tp)); }
     case 5: { double a = dec3(c, -5000, 5000), w = dec3(c, 100, 10000); f.uniform = true; ds << "Uniform(n=" << n << ",begin=" << a << ",end=" << a + w << ")"; return DD(new UniformDiscreteDistribution(static_cast<unsigned int>(n), a, a + w)); }
@@ -719,7 +719,9 @@ DD genLeaf(vf::Ctx& c, int maxN, ostringstream& ds, DFlags& f) {
         map<size_t, vector<double>> ranges;
         for (size_t i = 0; i < n; ++i) if (c.flag()) ranges[i + 1] = vector<double>{values[i] - dec3(c, 0, 2000), values[i] + dec3(c, 0, 2000)};
         if (!ranges.empty()) {
-          f.simpleRanges = true; if (!is_sorted(values.begin(), values.end())) f.unsortedRanges = true;
+          f.simpleRanges = true;
+          // a range whose parameter V_k is not the k-th smallest value (the writer lists the values in increasing order but keeps the index k)
+          for (auto& r : ranges) { size_t rank = 0; for (double v : values) if (v < values[r.first - 1]) ++rank; if (rank != r.first - 1) f.unsortedRanges = true; }
           ds << ",ranges=("; for (auto& r : ranges) ds << "V" << r.first << "[" << r.second[0] << ";" << r.second[1] << "]"; ds << "))";
           return DD(new SimpleDiscreteDistribution(values, ranges, probas));
         }
@@ -733,7 +735,9 @@ DD genDist(vf::Ctx& c, int depth, int maxN, ostringstream& ds, DFlags& f) {
   if (k == 1) {
     ++f.compounds; f.invariant = true; ds << "Invariant(dist=";
     DD in = genDist(c, depth + 1, max(1, maxN - 1), ds, f);
-    double p = dec3(c, 1, 999); bool libInv = c.flag(); ds << ",p=" << p << (libInv ? ",invariant=1e-6)" : ",invariant=0)");
+    double p = dec3(c, 1, 999);
+    if (f.libInvariant < 0) f.libInvariant = c.flag() ? 1 : 0;   // one invariant value per case: 1e-6 (what the reader uses) or 0 (the class default)
+    bool libInv = f.libInvariant == 1; ds << ",p=" << p << (libInv ? ",invariant=1e-6)" : ",invariant=0)");
     return DD(new InvariantMixedDiscreteDistribution(std::move(in), p, libInv ? 0.000001 : 0.0));
   }
   if (k == 2) {
@@ -762,12 +766,13 @@ LAW(P1_distribution, RC, 6000, 200000, 150, "compound distribution (Invariant / 
   { StlOutputStreamWrapper out(&os); BppODiscreteDistributionFormat w(false); w.writeDiscreteDistribution(*d, out, aliases, written); }
   const string text = os.str();
   c.desc << " written as " << q(text);
-  if (f.truncExp) c.excludeIfKnown("C17-truncexp-read-tp0");   // the reader crashes (sanitizer) before anything can be compared
   if (f.uniform) c.excludeIfKnown("C17-uniform-not-written");
   if (f.gammaOffset) c.excludeIfKnown("C17-gamma-offset");
+  if (f.betaSmall) c.excludeIfKnown("C17-beta-ctor-bounds");
+  if (f.unsortedRanges) c.excludeIfKnown("C17-simple-ranges-index");
   DD r;
   try { BppODiscreteDistributionFormat rd(false); r = rd.readDiscreteDistribution(text, true); }
-  catch (bpp::Exception& e) { CHECK(false, "readDiscreteDistribution raised on the written description " << q(text) << ": " << e.what()); }
+  catch (bpp::Exception& e) { CHECK(false, "readDiscreteDistribution raised on the written description " << q(text) << ": " << what1(e)); }
   CHECK(r->getName() == d->getName(), "read back a " << r->getName() << " from " << q(text));
   CHECK(r->getNumberOfCategories() == ncat, "read back " << r->getNumberOfCategories() << " classes instead of " << ncat << " from " << q(text));
   vector<double> cats2 = r->getCategories(), probs2 = r->getProbabilities();
